@@ -45,7 +45,10 @@ class Env:
         self.loop = loop
         self.cfg = cfg
         k = cfg['k']
-        self.deliveries = [{'type': 'websocket.receive', 'text': 'm%d' % (i + 1)} for i in range(k)]
+        if cfg.get('payload') == 'bytes':
+            self.deliveries = [{'type': 'websocket.receive', 'bytes': b'm%d' % (i + 1)} for i in range(k)]
+        else:
+            self.deliveries = [{'type': 'websocket.receive', 'text': 'm%d' % (i + 1)} for i in range(k)]
         if cfg['disc']:
             self.deliveries.append({'type': 'websocket.disconnect', 'code': 1001})
         self.next_delivery = 0
@@ -110,6 +113,10 @@ class Env:
                 await fut
             finally:
                 self.suspended_send = None
+        if ev.get('type') == 'websocket.close' and self.cfg.get('close_fails'):
+            # the connection is lost at this very moment: the server cannot send the close frame
+            self.sends.append({'type': 'websocket.close:failed', 'code': ev.get('code', 1000)})
+            raise OSError('connection lost while sending the close frame')
         self.sends.append(ev)
         if ev.get('type') == 'websocket.close':
             # the server drops whatever the client still had in flight and reports the closure
@@ -172,7 +179,10 @@ def make_resource(holder, cfg):
     async def recv_once(ws, racing_close=False):
         env.in_receive += 1
         try:
-            msg = await ws.receive_text()
+            if cfg.get('payload') == 'bytes':
+                msg = (await ws.receive_data()).decode()
+            else:
+                msg = await ws.receive_text()
         except WebSocketDisconnected as e:
             env.log.append(('recv-ended-by-own-close' if racing_close else 'recv-disconnected', e.code, len(env.app_received)))
             return False
@@ -263,7 +273,29 @@ def make_resource(holder, cfg):
             env.log.append(('closed',))
             await t
 
-    return {'A': A, 'B': B, 'C': C, 'D': D, 'E': E}[shape]()
+    class F:
+        # the application closes the connection itself and copes with a close frame that cannot be sent
+        async def on_websocket(self, req, ws):
+            await ws.accept()
+            await receiver(ws, r)
+            await env.gate('a')
+            if cfg.get('close_fails') == 'handler':
+                # the failure is left to an error handler registered for it (which does not touch the connection)
+                try:
+                    await ws.close()
+                finally:
+                    env.close_returned_pulls = env.pulls_issued
+                return
+            try:
+                await ws.close()
+            except OSError:
+                env.log.append(('close-failed',))
+            env.close_returned_pulls = env.pulls_issued
+            env.log.append(('closed',))
+            # ... and carries on for a while (the framework must not pull from the server any more)
+            await env.gate('a')
+
+    return {'A': A, 'B': B, 'C': C, 'D': D, 'E': E, 'F': F}[shape]()
 
 
 class Violation(Exception):
@@ -277,6 +309,10 @@ def build_app(cfg):
     app = falcon.asgi.App()
     app.ws_options.max_receive_queue = cfg['cap']
     app.add_route('/', make_resource(holder, cfg))
+    if cfg.get('close_fails') == 'handler':
+        async def on_oserror(req, resp, ex, params, ws=None):
+            holder['env'].log.append(('handler', type(ex).__name__))
+        app.add_error_handler(OSError, on_oserror)
     return app, holder
 
 
@@ -459,6 +495,17 @@ def gen_cfgs(tier):
                         if tier != 'quick' and susp and ((k == 3 and s > 1) or (k == 2 and s > 1)):
                             continue
                         cfgs.append({'shape': 'B', 'k': k, 'cap': cap, 'disc': True, 'r': r, 's': s, 'send_suspends': susp})
+    # binary payloads (receive_data) where a send runs next to the receiver, and for the single receiver
+    for c in [c for c in cfgs if (c['shape'] == 'B' and not c['send_suspends']) or (c['shape'] == 'A' and c['k'] <= 2)]:
+        cfgs.append(dict(c, payload='bytes'))
+    # close() whose close frame cannot be sent (shape F), with and without a pending client disconnect
+    for k in range(0, (2 if tier == 'quick' else 3) + 1):
+        for cap in (0, 1, 2):
+            for disc in (True, False):
+                for r in range(0, k + 1):
+                    for fails in (True, False, 'handler'):
+                        cfgs.append({'shape': 'F', 'k': k, 'cap': cap, 'disc': disc, 'r': r, 's': 0, 'send_suspends': False,
+                                     'close_fails': fails})
     kc = 2 if tier == 'quick' else 4
     for k in range(0, kc + 1):
         for cap in (0, 1, 2, 3):
